@@ -53,6 +53,8 @@ def run_prop(prop, tier):
         v = tlc_validate("Trace_RadixTree", "Trace_RadixTree.cfg", trace, wd, shards=12)
         c.add_validation(v, cases_path=cases, behaviours=mc["replays"], classes=CLASSES[prop])
     if prop == "C12":
+        # design-level liveness of Router::cache's retry loop (terminates for every behaviour of the matcher's cache contract)
+        c.add_mc(tlc_mc("RouterCacheLoop", "RouterCacheLoop.cfg", wd, workers=4, coverage=False))
         import p_router
         p_router.router_part(c, wd, "C12", tier)
     c.assumptions = ["patterns are token sequences over the literals a b / . and the marker groups of RadixOps.tla; the model's "
